@@ -1,5 +1,6 @@
 import Anndb.Model.Catalogue
 import Anndb.Generated
+import Anndb.Proofs.SharedGroup
 /-!
 # C14 — The dataset catalogue is replicated consistently and survives restart
 -/
@@ -388,6 +389,55 @@ does not list and sets the replica lists of what it does -/
 theorem snapshot_replaces_in_code : Generated.catalogueSnapshotReplaces = true := by decide
 
 /-! ## regenerated facts -/
+
+/-! ### through the shared group
+
+The catalogue is one of the named consumers of the zero group (`storage/raft/shared_group.go`): the
+snapshot a lagging member installs is the *shared group's* — a map consumer name → that consumer's
+snapshot — and the catalogue only sees its own slot. An empty catalogue marshals to zero bytes. -/
+
+/-- the catalogue as a consumer of the shared group -/
+def catalogueConsumer : Shared.Consumer Cat (List Dataset) :=
+  ⟨fun c _ => c, snapshot, restore, List.isEmpty⟩
+
+/-- **installing the shared group's snapshot installs every consumer's own part** — also a part of
+zero bytes — provided the group gives every consumer a slot (`keepEmpty = true`, the regenerated
+fact `sharedSnapshotKeepsEmptySlots`) -/
+theorem shared_snapshot_reaches_every_consumer {σ β : Type} (ops : String → Shared.Consumer σ β)
+    (names : List String) (hnd : names.Nodup) (lag lead : Shared.State σ) (n : String) (hn : n ∈ names) :
+    Shared.restore ops lag (Shared.snapshot ops names Generated.sharedSnapshotKeepsEmptySlots lead) n =
+      (ops n).restore (lag n) ((ops n).snapshot (lead n)) := by
+  have hk : Generated.sharedSnapshotKeepsEmptySlots = true := by decide
+  rw [hk]
+  exact Shared.restore_listed ops n _ _ lag (Shared.mem_snapshot_keep ops lead names n hn)
+    (Shared.snapshot_nodup ops true lead names hnd)
+
+/-- **C14 through the real path**: a member that has applied any prefix of the catalogue log and is
+caught up by the zero group's snapshot (taken after the whole log) lists exactly the leader's
+catalogue — whatever the other consumers are, and also when that catalogue is empty -/
+theorem lagging_member_gets_the_leaders_catalogue_through_the_shared_group
+    (ops : String → Shared.Consumer Cat (List Dataset)) (names : List String) (hnd : names.Nodup)
+    (hds : "datasets" ∈ names) (hops : ops "datasets" = catalogueConsumer)
+    (lag lead : Shared.State Cat) (pre suf : List Change) (hf : FreshIds (pre ++ suf))
+    (hlag : lag "datasets" = run [] pre) (hlead : lead "datasets" = run [] (pre ++ suf)) :
+    Shared.restore ops lag (Shared.snapshot ops names Generated.sharedSnapshotKeepsEmptySlots lead) "datasets"
+      = run [] (pre ++ suf) := by
+  rw [shared_snapshot_reaches_every_consumer ops names hnd lag lead "datasets" hds, hops, hlag, hlead]
+  exact lagging_member_gets_the_leaders_catalogue pre suf hf
+
+/-- a shared group that leaves out zero-byte slots (seeded change C14-D) never tells a lagging
+member that the catalogue has become empty: the deleted dataset stays listed -/
+theorem dropped_empty_slot_keeps_a_deleted_dataset :
+    let ops : String → Shared.Consumer Cat (List Dataset) := fun _ => catalogueConsumer
+    let lag : Shared.State Cat := fun n => if n = "datasets" then [⟨1, 2, 0, 1, [⟨10, [1]⟩]⟩] else []
+    let lead : Shared.State Cat := fun _ => []
+    Shared.restore ops lag (Shared.snapshot ops ["nodes", "datasets"] false lead) "datasets" ≠ [] ∧
+    Shared.restore ops lag (Shared.snapshot ops ["nodes", "datasets"] true lead) "datasets" = [] := by
+  decide
+
+/-- the shared group hands entries and snapshot slots to the consumer they name (regenerated) -/
+theorem shared_group_in_code : Generated.sharedSnapshotKeepsEmptySlots = true ∧
+    Generated.sharedRestoreVisitsEverySlot = true ∧ Generated.sharedProcessByName = true := by decide
 
 /-- the catalogue consumer is registered with the shared group before the zero group starts
 replaying (server.go), so no entry or snapshot is delivered to a missing consumer -/
